@@ -241,7 +241,9 @@ func corruptions(f *idForm, s string, rng *rand.Rand) []corruption {
 			}
 			add("prefix-char", string(q)+hx+f.Suffix)
 		}
-		add("prefix-truncated", f.Prefix[1:]+hx+f.Suffix)
+		if !strings.HasSuffix(f.Prefix, "::") { // dropping a digit of the height gives another valid index
+			add("prefix-truncated", f.Prefix[1:]+hx+f.Suffix)
+		}
 		add("prefix-only-separator", f.Prefix[len(f.Prefix)-1:]+hx+f.Suffix)
 		if strings.HasSuffix(f.Prefix, ":") {
 			add("prefix-no-separator", strings.TrimRight(f.Prefix, ":")+hx+f.Suffix)
